@@ -21,15 +21,26 @@ import (
 // Then ONE operation of any kind with any operands runs (also on the other topic), and every
 // query endpoint is compared with the model.
 
-func (w *verifC14World) genConnections() {
-	n := verifrt.Choice("connected", verifC14NP+1)
+// full = the whole product (thorough tier). The quick tier takes a slice of it: both peers
+// connected (one-peer histories are covered exhaustively by VerifC14_Histories), the frame witness on the other topic always present, and operations aimed at
+// the focus topic only.
+func (w *verifC14World) genConnections(full bool) {
+	n := verifC14NP
+	if full {
+		n = verifrt.Choice("connected", verifC14NP+1)
+	} else {
+		n = verifC14NP
+	}
 	for p := 0; p < n; p++ {
 		w.connect(p)
 	}
 }
 
-func (w *verifC14World) genOther(o int) {
-	if w.m.conn[0] && verifrt.Choice("other", 2) == 1 {
+func (w *verifC14World) genOther(o int, full bool) {
+	if !w.m.conn[0] {
+		return
+	}
+	if !full || verifrt.Choice("other", 2) == 1 {
 		w.register(0, o, 0)
 	}
 }
@@ -93,12 +104,16 @@ func (w *verifC14World) genChannels(f int, nch int) {
 	}
 }
 
-func verifC14StepProducers() {
+func verifC14StepProducers(full bool) {
 	w := verifC14NewWorld()
+	w.wit = 9
 	kind := verifrt.Choice("op", verifC14Kinds)
 	f := verifrt.Choice("focus", verifC14NT)
-	w.genConnections()
-	w.genOther(1 - f)
+	if !full {
+		w.onlyTopic = f
+	}
+	w.genConnections(full)
+	w.genOther(1-f, full)
 	w.genProducers(f)
 	w.step(kind)
 	w.checkKeys()
@@ -106,21 +121,33 @@ func verifC14StepProducers() {
 	w.witnesses()
 }
 
-func verifC14StepChannels(nch int) {
+func verifC14StepChannels(full bool) {
 	w := verifC14NewWorld()
+	w.wit = 9
 	kind := verifrt.Choice("op", verifC14Kinds)
 	f := verifrt.Choice("focus", verifC14NT)
-	w.genConnections()
-	w.genOther(1 - f)
+	nch := verifC14NC
+	if !full {
+		w.onlyTopic = f
+		nch = 1
+	}
+	w.genConnections(full)
+	w.genOther(1-f, full)
 	w.genChannels(f, nch)
 	w.step(kind)
 	w.checkKeys()
-	w.checkLookup(f)
-	w.witnesses()
+	if full {
+		// also the channel list inside /lookup (forks on the producers' activity)
+		w.checkLookup(f)
+	}
+	w.reach(1, "step-ephemeral-key-removed-by-last-unregister", w.sawEphemeralRemoved)
+	w.reach(1, "step-disconnect-ran-exit-path", w.sawDisconnect)
 }
 
-func VerifC14_StepFromAnyProducerState() { verifrt.Atomic(verifC14StepProducers) }
+func VerifC14_StepFromAnyProducerState() {
+	verifrt.Atomic(func() { verifC14StepProducers(verifrt.Bound("fullProduct", 0, 1) == 1) })
+}
 
 func VerifC14_StepFromAnyChannelState() {
-	verifrt.Atomic(func() { verifC14StepChannels(verifrt.Bound("generalChannels", 1, 2)) })
+	verifrt.Atomic(func() { verifC14StepChannels(verifrt.Bound("fullProduct", 0, 1) == 1) })
 }
